@@ -29,7 +29,7 @@ ASSUMPTIONS = [
 
 @st.composite
 def rt_case(draw):
-    case = draw(gens.input_case(gens.opts(long_strings=True)))
+    case = draw(gens.input_case(gens.opts(long_strings=True, null_structs=True, bits_char=True, bits_odd=True, wide_bits=True)))
     case["mode"] = draw(st.sampled_from(["parsed", "parsed", "constructed"]))
     return case
 
@@ -142,6 +142,12 @@ def _roundtrip(case, ctx, T, obj, label, ref):
         raise Violation("roundtrip-value-differs", f"at {paths[:5]}: dumps(v)={b.hex()} parses to {cv2!r}, v={cv!r}: {desc()}", info={"paths": paths, "dump": b.hex()})
     if s.tell() != len(b):
         raise Violation("roundtrip-consumed-differs", f"dumps(v) has {len(b)} bytes, parsing it consumed {s.tell()}: {desc({'dump': b.hex()})}")
+    if not gens.has_eof(ref["sem"].res(common.ROOT)):
+        # ... also when more bytes follow: exactly len(dumps(v)) are consumed, the value is the same
+        s3 = io.BytesIO(b + b"\xa5\x00\xff\x5a")
+        v3 = lib(T, s3)
+        if isinstance(v3, Err) or libside.cplain(v3) != cv or s3.tell() != len(b):
+            raise Violation("roundtrip-consumed-differs", f"dumps(v) followed by other bytes: parse gives {v3 if isinstance(v3, Err) else libside.cplain(v3)!r} and consumes {s3.tell()} of {len(b)} bytes: {desc({'dump': b.hex()})}")
     if not refsem.has_nan(v):
         eq = lib(lambda: v2 == obj)
         if eq is not True:
@@ -150,6 +156,87 @@ def _roundtrip(case, ctx, T, obj, label, ref):
     if size is not None and not case.get("mixed") and (len(b) != size or len(T) != size):
         raise Violation("fixed-size-differs", f"len(dumps)={len(b)} len(T)={len(T)} reference size {size}: {desc()}")
     return v, b
+
+
+def _editable_leaves(sem, t, v, path=(), refs=frozenset()):
+    """Integer / enum / pointer leaves that can be reassigned without changing the shape of the value: not a length
+    source, not inside a null-terminated array or a union, not a bit-field, not a flag over a signed type."""
+    t = sem.res(t)
+    k = t["k"]
+    if k == "s":
+        if SCALARS[t["n"]][0] == "int":
+            yield path
+    elif k == "e":
+        d = sem.enumdef(t)
+        if not (d["kind"] == "flag" and SCALARS[d["base"]][3]):
+            yield path
+    elif k == "p":
+        yield path
+    elif k == "a":
+        if t["len"][0] in ("fixed", "expr") and isinstance(v, list):
+            for i, e in enumerate(v[:3]):
+                yield from _editable_leaves(sem, t["t"], e, path + (i,))
+    elif k == "st" and t["kind"] == "struct":
+        names = gens.referenced_names(t)
+        for i, f in enumerate(t["fields"]):
+            if f.get("bits") or f.get("name") is None or f["name"] in names:
+                continue
+            yield from _editable_leaves(sem, f["t"], v[fkey(f, i)], path + (fkey(f, i),))
+
+
+def _lib_assign(sem, obj, path, new):
+    """obj.<path> = new, walking attributes / indices the way a user would."""
+    t = sem.res(common.ROOT)
+    holder = obj
+    ltype = type(obj)  # library type of `holder`
+
+    def conv(lt):
+        return lt(new) if hasattr(lt, "__members__") else new  # enum / flag fields hold members of their class
+
+    for n, p in enumerate(path):
+        last = n == len(path) - 1
+        if isinstance(p, int):
+            if last:
+                holder[p] = conv(ltype.type)
+                return
+            holder = holder[p]
+            ltype = ltype.type
+            t = sem.res(t["t"])
+        else:
+            idx = [i for i, f in enumerate(t["fields"]) if fkey(f, i) == p][0]
+            lf = ltype.__fields__[idx]
+            if last:
+                setattr(holder, lf._name, conv(lf.type))
+                return
+            holder = getattr(holder, lf._name)
+            ltype = lf.type
+            t = sem.res(t["fields"][idx]["t"])
+
+
+def _edit_and_roundtrip(case, ctx, T, obj, v, ref):
+    """History of two steps: a value that was parsed (or constructed), then edited in one leaf, round-trips as edited."""
+    sem = ref["sem"]
+    leaves = list(_editable_leaves(sem, common.ROOT, v))
+    if not leaves:
+        return
+    path = leaves[(len(case["data"]) * 7 + len(leaves)) % len(leaves)]
+    old = v
+    for p in path:
+        old = old[p]
+    if not isinstance(old, int):
+        return
+    new = old ^ 1
+    r = lib(_lib_assign, sem, obj, path, new)
+    if isinstance(r, Err):
+        raise Violation("assignment-raised", f"assigning {new} at {path}: {r}: {common.describe(case)}", r.where)
+    want = refsem.canon(_set_path(v, path, new))
+    b = lib(obj.dumps)
+    if isinstance(b, Err):
+        raise Violation("dumps-raised", f"after assigning {new} at {path}: {b}: {common.describe(case)}", b.where, {"exc": b.type, "label": "edited"})
+    v2 = lib(T, io.BytesIO(b))
+    if isinstance(v2, Err) or libside.cplain(v2) != want:
+        raise Violation("edited-value-not-written", f"after assigning {new} (was {old}) at {path}: dumps={b.hex()} parses to {v2 if isinstance(v2, Err) else libside.cplain(v2)!r}, the edited value is {want!r}: {common.describe(case)}")
+    ctx.count("edited-after-" + case["mode"])
 
 
 def run_case(case, ctx):
@@ -173,11 +260,14 @@ def run_case(case, ctx):
                 return
             raise Violation("accepted-input-rejected", f"{common.describe(case)} -> {obj}", obj.where)
         v, b = _roundtrip(case, ctx, T, obj, mode, ref)
+        if mode == "parsed" and ref["status"] == "ok":
+            _edit_and_roundtrip(case, ctx, T, obj, v, ref)
     elif mode == "constructed":
         obj = lib(libside.build_value, T, sem, common.ROOT, ref["want"])
         if isinstance(obj, Err):
             raise Violation("construction-raised", f"constructing {ref['want']!r}: {common.describe(case)} -> {obj}", obj.where)
         v, b = _roundtrip(case, ctx, T, obj, mode, ref)
+        _edit_and_roundtrip(case, ctx, T, obj, v, ref)
     elif mode == "reject":
         leaves = list(_int_leaves(sem, common.ROOT, ref["want"]))
         if not leaves:
@@ -278,6 +368,26 @@ def _kf_signed_flag(case, v):
         return v.info.get("exc") in ("OverflowError", "error") and v.where in ("int.py:_write", "packed.py:_write", "packed.py:_write_array") and (
             bool(common.neg_flag_spans(ref)) or v.info.get("label") == "constructed"
         )
+    if v.kind == "roundtrip-value-differs" and case.get("mode") in ("parsed", "parsed-raw") and ref["status"] == "ok" and common.neg_flag_spans(ref):
+        # a negative flag element of a null-terminated array came back from the parser as another number (possibly 0,
+        # which then reads as the terminator): every differing path lies in such an array holding a negative element
+        sem, root = ref["sem"], ref["sem"].res(common.ROOT)
+        for path in v.info.get("paths", []):
+            top = path.lstrip(".").split(".")[0].split("[")[0]
+            fld = [(i, f) for i, f in enumerate(root["fields"]) if fkey(f, i) == top]
+            if not fld:
+                return False
+            i, f = fld[0]
+            t = sem.res(f["t"])
+            if t["k"] != "a" or t["len"][0] != "null":
+                return False
+            et = sem.res(t["t"])
+            if et["k"] != "e":
+                return False
+            d = sem.enumdef(et)
+            if not (d["kind"] == "flag" and SCALARS[d["base"]][3] and any(isinstance(x, int) and x < 0 for x in ref["want"][top])):
+                return False
+        return bool(v.info.get("paths"))
     return False
 
 
@@ -319,7 +429,17 @@ def _kf_union_dump(case, v):
         return False
 
     paths = v.info.get("paths", [])
-    return bool(paths) and all(through_union(p) for p in paths)
+    if not (bool(paths) and all(through_union(p) for p in paths)):
+        return False
+    if ref["status"] == "ok" and "dump" in v.info and case.get("mode") in ("parsed", "constructed") and not common.neg_flag_spans(ref):
+        # exactly this finding: the dump is what a writer that serialises only the first largest member produces
+        sem2 = refsem.Sem(case["defs"], case["cfg"])
+        sem2.union_write = "largest"
+        try:
+            return bytes(sem2.encode(common.ROOT, ref["want"])) == bytes.fromhex(v.info["dump"])
+        except Exception:  # noqa: BLE001 - the writer model cannot encode this value: not recognisably this finding
+            return False
+    return True
 
 
 KNOWN_PREDICATES = {"signed-flag-negative-value": _kf_signed_flag, "union-dump-largest-member-only": _kf_union_dump}
